@@ -18,6 +18,7 @@ import (
 	"encoding/json"
 	"flag"
 	"fmt"
+	"math"
 	"math/rand"
 	"os"
 	"path/filepath"
@@ -27,6 +28,7 @@ import (
 	"strings"
 	"sync"
 	"sync/atomic"
+	"time"
 
 	"github.com/pinealctx/neptune/queue/priq"
 	"github.com/pinealctx/neptune/queue/syncq"
@@ -53,7 +55,7 @@ type act struct {
 	Delay []int // race: spin iterations of each goroutine after the barrier (seeded skew)
 }
 
-const nCall = 4 // goroutines for the non-blocking calls of a step (a race may need several)
+const nCall = 5 // goroutines for the non-blocking calls of a step (a race may need several)
 
 // executors are reused from trace to trace as long as every worker came back
 var xpool = map[int][]*qx.Exec{}
@@ -161,16 +163,18 @@ type pending struct {
 }
 
 type lworld struct {
-	emit func(tr.E)
-	q    qa.Queue
-	kind string
-	x    *qx.Exec
-	busy [nCons + 1]bool        // consumer has an outstanding Pop
-	gid  [nCons + nCall + 1]int // goroutine ids of the workers (written by the call itself)
-	m    qa.Model               // the harness's own count model of the property (drain length only)
-	mp   int                    // consumers parked according to that model
-	dead bool
-	pend *pending
+	emit  func(tr.E)
+	q     qa.Queue
+	kind  string
+	x     *qx.Exec
+	busy  [nCons + 1]bool        // consumer has an outstanding Pop
+	gid   [nCons + nCall + 1]int // goroutine ids of the workers (written by the call itself)
+	m     qa.Model               // the harness's own count model of the property (drain length only)
+	mp    int                    // consumers parked according to that model
+	fuzzy bool                   // after a burst / race the model is only an estimate of the length
+	nadds int                    // adds issued so far
+	dead  bool
+	pend  *pending
 	// the steps still to come: the plan, then the drain
 	plan   []act
 	dstate int
@@ -209,7 +213,7 @@ func (wd *lworld) issue(a act) bool {
 		// with the rest of the burst
 		var keep []qa.Act
 		for _, x := range a.Acts {
-			if x.Op != "pop" && qa.Supports(wd.kind, x) {
+			if x.Op != "pop" && x.Op != "addw" && qa.Supports(wd.kind, x) && wd.m.Returns(x) {
 				keep = append(keep, x)
 			}
 		}
@@ -236,8 +240,14 @@ func (wd *lworld) issue(a act) bool {
 			return qa.Safe(q, inner)
 		})
 	default:
-		if !qa.Supports(wd.kind, a.Act) {
+		// AddAnyway on a full lane / WaitClose with a live context before the close block by the
+		// property: issued only when the count model (Len an upper bound, Closed a certainty) says
+		// they return
+		if !qa.Supports(wd.kind, a.Act) || !wd.m.Returns(a.Act) {
 			return false
+		}
+		if wd.fuzzy && (a.Op == "addw" || (a.Op == "waitclear" && a.Bg)) {
+			return false // whether it returns depends on the exact length: only issued while the model is exact
 		}
 		inner := a.Act
 		wd.x.Issue(nCons+1, func() interface{} { return qa.Safe(q, inner) })
@@ -254,7 +264,7 @@ func (wd *lworld) issueRace(a act) bool {
 	used := map[int]bool{}
 	ncall := 0
 	for i, x := range a.Acts {
-		if !qa.Supports(wd.kind, x) {
+		if !qa.Supports(wd.kind, x) || (x.Op != "pop" && (x.Op == "addw" || !wd.m.Returns(x))) {
 			continue
 		}
 		w := 0
@@ -363,8 +373,10 @@ func (wd *lworld) collect() {
 					st[c-1] = tr.E{"s": "parked", "r": none(), "why": why}
 					break
 				}
-				if tries >= 8 {
-					tr.Fatal("consumer %d neither returned nor blocked: %q", c, why)
+				if tries >= 8 { // neither returned nor blocked: logged as such, the spec has no such status
+					st[c-1] = tr.E{"s": "unsettled:" + why, "r": none()}
+					wd.dead = true
+					break
 				}
 				settle()
 			}
@@ -374,11 +386,13 @@ func (wd *lworld) collect() {
 	switch a.Op {
 	case "burst":
 		ev["rs"] = rs
+		wd.fuzzy = true
 		for _, x := range a.Acts {
 			wd.model(x)
 		}
 	case "race":
 		ev["rs"] = rs
+		wd.fuzzy = true
 		// count model after a race: Len must be an upper bound and Closed a certainty, whatever the
 		// order was: adds first, then close; a try-close counts only when nothing was added
 		adds := 0
@@ -422,6 +436,9 @@ func (wd *lworld) modelPop(x qa.Act) {
 
 // model advances the count model: parked consumers take what arrives, a close releases them.
 func (wd *lworld) model(x qa.Act) {
+	if x.Op == "add" || x.Op == "addw" {
+		wd.nadds++
+	}
 	wd.m.Apply(x)
 	for wd.mp > 0 && wd.m.Len() > 0 {
 		wd.m.Apply(qa.Act{Op: "pop", Any: true})
@@ -501,7 +518,11 @@ func (wd *lworld) next() (act, bool) {
 				}
 			}
 			if free != 0 {
-				for i := wd.m.Len() + 1; i > 0; i-- {
+				n := wd.m.Len()
+				if wd.fuzzy && wd.nadds > n {
+					n = wd.nadds // an upper bound: every item must come out before "closed"
+				}
+				for i := n + 1; i > 0; i-- {
 					wd.dq = append(wd.dq, act{Act: qa.Act{Op: "pop", Any: true}, C: free})
 				}
 			}
@@ -529,17 +550,89 @@ func (wd *lworld) advance() bool {
 func newWorld(src, kind string, ccap, rcap, rep int, plan []act, emit func(tr.E)) *lworld {
 	wd := &lworld{emit: emit, q: qa.New(kind, ccap, rcap, rep), kind: kind, x: getExec(nCons + nCall),
 		m: qa.Model{Kind: kind, Ccap: ccap, Rcap: rcap}, plan: plan}
-	emit(tr.E{"ev": "reset", "kind": kind, "ccap": ccap, "rcap": rcap, "src": src, "rep": rep})
+	emit(tr.E{"ev": "reset", "kind": kind, "ccap": qa.Clamp(ccap), "rcap": qa.Clamp(rcap), "src": src, "rep": rep})
 	return wd
 }
 
 // settle waits for global quiescence and keeps the goroutine states seen right after it.
 func settle() {
-	if err := settler.Settle(); err != nil {
-		tr.Fatal("%v", err)
-	}
+	settleWith(settler)
 	lastSnap = qx.Goroutines()
 }
+
+// settleWith: no quiescence within the budget is retried; if a goroutine is then still RUNNING
+// inside neptune's code (a call that neither returns nor blocks), that is an observation about the
+// code under test: a `hang` event is written - every trace spec rejects it - and the harness ends
+// normally.  Anything else (nothing of neptune running) stays a harness problem (exit 2).
+func settleWith(x *qx.Exec) {
+	var err error
+	for try := 0; try < 3; try++ {
+		if err = x.Settle(); err == nil {
+			return
+		}
+	}
+	if where := stuckInNeptune(); where != "" {
+		onHang(where)
+	}
+	tr.Fatal("%v", err)
+}
+
+// runningInNeptune: the goroutines that are running / runnable with a neptune frame on top of the
+// harness frames, as "goroutine id -> function".
+func runningInNeptune() map[string]string {
+	out := map[string]string{}
+	buf := make([]byte, 4<<20)
+	n := runtime.Stack(buf, true)
+	for _, blk := range strings.Split(string(buf[:n]), "\n\n") {
+		nl := strings.IndexByte(blk, '\n')
+		if nl < 0 {
+			continue
+		}
+		head := blk[:nl]
+		if !(strings.Contains(head, "[running") || strings.Contains(head, "[runnable")) {
+			continue
+		}
+		for _, ln := range strings.Split(blk[nl+1:], "\n") {
+			if strings.HasPrefix(ln, "github.com/pinealctx/neptune/") {
+				if k := strings.LastIndex(ln, "("); k > 0 {
+					ln = ln[:k]
+				}
+				out[strings.Fields(head)[1]] = ln
+				break
+			}
+			if strings.HasPrefix(ln, "main.") && !strings.Contains(ln, ".func") {
+				break
+			}
+		}
+	}
+	return out
+}
+
+// stuckInNeptune: the same goroutine is found running in the same neptune function at six probes
+// two seconds apart (a starved but progressing process shows changing pictures).
+func stuckInNeptune() string {
+	cand := runningInNeptune()
+	for probe := 0; probe < 5 && len(cand) > 0; probe++ {
+		time.Sleep(2 * time.Second)
+		now := runningInNeptune()
+		for g, f := range cand {
+			if now[g] != f {
+				delete(cand, g)
+			}
+		}
+	}
+	for _, f := range cand {
+		return f
+	}
+	return ""
+}
+
+// onHang is installed by main: flush what was recorded, append the hang event, end the harness.
+var (
+	onHang     = func(where string) {}
+	batchFlush func()
+	curW       *tr.W
+)
 
 var lastSnap map[int]string
 
@@ -551,7 +644,12 @@ func goid() int {
 	return id
 }
 
-var settler = qx.New(0)
+// a caller asleep between two tries of AddAnyway is blocked (the lane is full), not busy
+var settler = func() *qx.Exec {
+	x := qx.New(0)
+	x.Ignore = map[string]bool{"sleep": true}
+	return x
+}()
 
 type spec struct {
 	src, kind       string
@@ -562,6 +660,7 @@ type spec struct {
 // runBatch runs independent worlds in lock-step: every world issues its next step, ONE global
 // quiescence, every world logs its picture.  Each world's events stay contiguous in the file.
 func runBatch(w *tr.W, specs []spec) {
+	curW = w
 	worlds := make([]*lworld, len(specs))
 	bufs := make([][]tr.E, len(specs))
 	for i, sp := range specs {
@@ -569,6 +668,14 @@ func runBatch(w *tr.W, specs []spec) {
 		worlds[i] = newWorld(sp.src, sp.kind, sp.ccap, sp.rcap, sp.rep, sp.plan,
 			func(e tr.E) { bufs[i] = append(bufs[i], e) })
 	}
+	batchFlush = func() { // a hang ends the harness: what the worlds recorded so far is kept
+		for i := range worlds {
+			for _, e := range bufs[i] {
+				w.Emit(e)
+			}
+		}
+	}
+	defer func() { batchFlush = nil }()
 	for {
 		var active []*lworld
 		for _, wd := range worlds {
@@ -754,11 +861,12 @@ func newRaw(kind string, rcap int) rawQ {
 // stressList: producers add distinct items, consumers pop until "closed", a closer closes when the
 // producers are done (sometimes earlier).  At global quiescence every consumer must have returned.
 func stressList(w *tr.W, rng *rand.Rand, kind string, rcap, nprod, ncons, per int) {
+	curW = w
 	q := newRaw(kind, rcap)
 	var mu sync.Mutex
 	got := make([]int, 0, nprod*per)
 	accepted := make([]int, 0, nprod*per)
-	var running int32
+	var running, pdone int32
 	var pwg sync.WaitGroup
 	early := kind != "syncq" && rng.Intn(3) == 0
 	for p := 0; p < nprod; p++ {
@@ -775,6 +883,7 @@ func stressList(w *tr.W, rng *rand.Rand, kind string, rcap, nprod, ncons, per in
 			mu.Lock()
 			accepted = append(accepted, mine...)
 			mu.Unlock()
+			atomic.AddInt32(&pdone, 1)
 		}(p)
 	}
 	for c := 0; c < ncons; c++ {
@@ -801,12 +910,9 @@ func stressList(w *tr.W, rng *rand.Rand, kind string, rcap, nprod, ncons, per in
 		}
 		q.close()
 	}()
-	x := qx.New(0)
-	pwg.Wait()
-	if err := x.Settle(); err != nil {
-		tr.Fatal("stress: %v", err)
-	}
-	stuck := int(atomic.LoadInt32(&running))
+	// quiescence, not pwg.Wait(): a producer that never comes back is counted, not waited for
+	settleWith(settler)
+	stuck := int(atomic.LoadInt32(&running)) + nprod - int(atomic.LoadInt32(&pdone))
 	// the residue of the closed queue (adds on a syncq after close are dropped silently, so the
 	// "accepted" set of a syncq is what was pushed before the close: not observable -> only unbounded,
 	// late close for syncq, see main)
@@ -958,9 +1064,7 @@ func (wd *pworld) race(a act) {
 		})
 	}
 	b.release(len(fns))
-	if err := wd.x.Settle(); err != nil {
-		tr.Fatal("%v", err)
-	}
+	settleWith(wd.x)
 	rs := make([]tr.E, len(fns))
 	for i, p := range procs {
 		if r, ok := wd.x.Take(p); ok {
@@ -1004,9 +1108,7 @@ func (wd *pworld) step(a act) {
 			atomic.StoreInt32(&gateArmed, 1)
 		}
 		wd.call(p, a.Op)
-		if err := wd.x.Settle(); err != nil {
-			tr.Fatal("%v", err)
-		}
+		settleWith(wd.x)
 		atomic.StoreInt32(&gateArmed, 0)
 		if r, ok := wd.x.Take(p); ok {
 			rep = r.(tr.E)
@@ -1026,9 +1128,7 @@ func (wd *pworld) step(a act) {
 		}
 		close(wd.rel[p])
 		wd.rel[p] = nil
-		if err := wd.x.Settle(); err != nil {
-			tr.Fatal("%v", err)
-		}
+		settleWith(wd.x)
 		if r, ok := wd.x.Take(p); ok {
 			rep = r.(tr.E)
 		} else {
@@ -1064,9 +1164,7 @@ func (wd *pworld) step(a act) {
 			}
 			return qa.Rp("item", n)
 		})
-		if err := wd.x.Settle(); err != nil {
-			tr.Fatal("%v", err)
-		}
+		settleWith(wd.x)
 		if r, ok := wd.x.Take(p); ok {
 			rep = r.(tr.E)
 		} else {
@@ -1083,9 +1181,7 @@ func (wd *pworld) step(a act) {
 				n++
 			}
 		}
-		if err := wd.x.Settle(); err != nil {
-			tr.Fatal("%v", err)
-		}
+		settleWith(wd.x)
 		rep = qa.Rp("ok", n)
 		for i := 1; i <= nCons; i++ {
 			if wd.x.Busy(i) {
@@ -1128,8 +1224,9 @@ func (wd *pworld) step(a act) {
 }
 
 func runPri(w *tr.W, src string, rcap int, plan []act) {
+	curW = w
 	wd := &pworld{w: w, q: priq.NewPriQueue(rcap), x: getExec(nCons)}
-	w.Emit(tr.E{"ev": "reset", "kind": "priq", "ccap": 0, "rcap": rcap, "src": src})
+	w.Emit(tr.E{"ev": "reset", "kind": "priq", "ccap": 0, "rcap": qa.Clamp(rcap), "src": src})
 	for _, a := range plan {
 		wd.step(a)
 	}
@@ -1137,7 +1234,11 @@ func runPri(w *tr.W, src string, rcap int, plan []act) {
 	for p := 1; p <= nCons; p++ {
 		wd.step(act{Act: qa.Act{Op: "gate"}, P: p})
 	}
-	for i := 0; i < 3*rcap+6 && !wd.dead; i++ {
+	left := rcap // what may be queued: at most the capacity, and the plans push a few dozen at most
+	if left > 40 {
+		left = 40
+	}
+	for i := 0; i < 3*left+6 && !wd.dead; i++ {
 		wd.step(act{Act: qa.Act{Op: "recv"}, P: 1})
 		wd.step(act{Act: qa.Act{Op: "popx"}, P: 1})
 	}
@@ -1156,6 +1257,25 @@ func skews(rng *rand.Rand, n int) []int {
 		}
 	}
 	return d
+}
+
+// reader: a call that only looks (accessors, a WaitClose / WaitClear whose context has ended, and
+// for the sync queue the non-blocking TryPop) - readers take part in the races as calls with replies.
+func reader(rng *rand.Rand, kind string) (qa.Act, bool) {
+	var ops []string
+	switch kind {
+	case "async":
+		ops = []string{"isclosed", "size"}
+	case "mux":
+		ops = []string{"isclosed", "waitclose"}
+	case "mq":
+		ops = []string{"isclosed", "iscleared", "waitclose", "waitclear"}
+	case "syncq":
+		ops = []string{"len", "trypop"}
+	default:
+		return qa.Act{}, false
+	}
+	return qa.Act{Op: ops[rng.Intn(len(ops))]}, true
 }
 
 // raceList: the race itself on a fresh, empty or nearly empty queue: k consumers entering Pop
@@ -1202,6 +1322,9 @@ func raceList(rng *rand.Rand, kind string) (plan []act) {
 		r.Acts = append(r.Acts, x)
 		r.RC = append(r.RC, 0)
 	}
+	if x, ok := reader(rng, kind); ok && len(r.Acts) < 5 && rng.Intn(3) == 0 {
+		r.Acts, r.RC = append(r.Acts, x), append(r.RC, 0)
+	}
 	rng.Shuffle(len(r.Acts), func(i, j int) {
 		r.Acts[i], r.Acts[j] = r.Acts[j], r.Acts[i]
 		r.RC[i], r.RC[j] = r.RC[j], r.RC[i]
@@ -1240,6 +1363,9 @@ func raceCtl(rng *rand.Rand, kind string) (plan []act) {
 	r.Acts, r.RC = []qa.Act{{Op: ctl}}, []int{0}
 	for n := []int{1, 2, 2, 3, 3, 3}[rng.Intn(6)]; n > 0; n-- { // more producers, more chances to overlap
 		r.Acts, r.RC = append(r.Acts, add()), append(r.RC, 0)
+	}
+	if x, ok := reader(rng, kind); ok && rng.Intn(3) == 0 {
+		r.Acts, r.RC = append(r.Acts, x), append(r.RC, 0)
 	}
 	rng.Shuffle(len(r.Acts), func(i, j int) { r.Acts[i], r.Acts[j] = r.Acts[j], r.Acts[i] })
 	r.Delay = skews(rng, len(r.Acts))
@@ -1305,6 +1431,16 @@ func raceParked(rng *rand.Rand, kind string, take bool) (plan []act) {
 // racePri: a (nearly) full queue, a consumer that holds the token and Pops, together with Len()
 // pollers, pushers (rejected when full) and other poppers.
 func racePri(rng *rand.Rand, rcap int) (plan []act) {
+	if rng.Intn(3) == 0 {
+		// cold start: the fresh queue is first touched by several goroutines at once
+		r := act{Act: qa.Act{Op: "race"}}
+		for p := 1; p <= nCons; p++ {
+			op := []string{"pushx", "pushx", "popx", "len", "recv"}[rng.Intn(5)]
+			r.Acts, r.RC = append(r.Acts, qa.Act{Op: op}), append(r.RC, p)
+		}
+		r.Delay = skews(rng, len(r.Acts))
+		plan = append(plan, r)
+	}
 	fill := rcap - rng.Intn(2)
 	if fill < 1 {
 		fill = 1
@@ -1345,6 +1481,7 @@ func randPri(rng *rand.Rand, n int) []act {
 // token was followed by a Pop and all consumers sleep on the channel: the queue must be empty, or
 // the channel must hold a token (which cannot be while they sleep); accepted = got + left.
 func stressPri(w *tr.W, rng *rand.Rand, nprod, ncons, per int) {
+	curW = w
 	capa := nprod*per + 1
 	if rng.Intn(3) != 0 {
 		capa = 1 + rng.Intn(4)
@@ -1352,12 +1489,11 @@ func stressPri(w *tr.W, rng *rand.Rand, nprod, ncons, per int) {
 	npoll := rng.Intn(3)
 	q := priq.NewPriQueue(capa)
 	var got, accepted int32
-	var pwg sync.WaitGroup
+	var pdone int32
 	b := &barrier{}
 	for p := 0; p < nprod; p++ {
-		pwg.Add(1)
 		go func(p int) {
-			defer pwg.Done()
+			defer atomic.AddInt32(&pdone, 1)
 			b.wait(0)
 			for i := 0; i < per; i++ {
 				if q.Push(&pent{p*per + i}) == nil {
@@ -1367,9 +1503,8 @@ func stressPri(w *tr.W, rng *rand.Rand, nprod, ncons, per int) {
 		}(p)
 	}
 	for p := 0; p < npoll; p++ {
-		pwg.Add(1)
 		go func() {
-			defer pwg.Done()
+			defer atomic.AddInt32(&pdone, 1)
 			b.wait(0)
 			for i := 0; i < 3*per; i++ {
 				_ = q.Len()
@@ -1385,14 +1520,11 @@ func stressPri(w *tr.W, rng *rand.Rand, nprod, ncons, per int) {
 			}
 		}()
 	}
-	x := qx.New(0)
 	b.release(nprod + npoll)
-	pwg.Wait()
-	if err := x.Settle(); err != nil {
-		tr.Fatal("pstress: %v", err)
-	}
+	// quiescence, not pwg.Wait(): a producer or poller that never comes back is counted (stuck)
+	settleWith(settler)
 	w.Emit(tr.E{"ev": "reset", "kind": "priq", "ccap": 0, "rcap": capa, "src": "stress"})
-	w.Emit(tr.E{"ev": "pstress", "left": q.Len(), "sig": len(q.WaitCh()), "got": int(atomic.LoadInt32(&got)),
+	w.Emit(tr.E{"ev": "pstress", "stuck": nprod + npoll - int(atomic.LoadInt32(&pdone)), "left": q.Len(), "sig": len(q.WaitCh()), "got": int(atomic.LoadInt32(&got)),
 		"accepted": int(atomic.LoadInt32(&accepted)), "nprod": nprod, "ncons": ncons, "npoll": npoll})
 }
 
@@ -1417,7 +1549,25 @@ func main() {
 	rng := rand.New(rand.NewSource(*seed))
 	priq.VerifGate = gate
 
-	w := tr.Create(*out)
+	var open []*tr.W
+	create := func(path string) *tr.W {
+		x := tr.Create(path)
+		open = append(open, x)
+		return x
+	}
+	onHang = func(where string) {
+		if batchFlush != nil {
+			batchFlush()
+		}
+		curW.Emit(tr.E{"ev": "reset", "kind": "q", "ccap": 0, "rcap": 0, "src": "hang", "rep": 0})
+		curW.Emit(tr.E{"ev": "hang", "where": where})
+		for _, x := range open {
+			x.Close()
+		}
+		fmt.Printf("hang: a goroutine keeps running in %s\n", where)
+		os.Exit(0)
+	}
+	w := create(*out)
 	// independent worlds run in lock-step batches (one global quiescence per step of the batch)
 	var batch []spec
 	flush := func() {
@@ -1448,7 +1598,7 @@ func main() {
 		}
 	}
 	kinds := []string{"syncq", "q", "async", "mux", "mq"}
-	caps := []int{0, 1, 2, 0, 3}
+	caps := []int{0, 1, 2, 0, 3, -1, math.MaxInt}
 	for i := 0; i < *nrand; i++ {
 		kind := kinds[i%len(kinds)]
 		ccap, rcap := 0, caps[rng.Intn(len(caps))]
@@ -1487,7 +1637,7 @@ func main() {
 	sel := strings.Split(*rounds, ",")
 	for i := 0; i < *nrace; i++ {
 		for _, kind := range kinds {
-			rcap := []int{0, 0, 1, 2}[rng.Intn(4)]
+			rcap := []int{0, 0, 1, 2, 0, 1, -1, math.MaxInt}[rng.Intn(8)]
 			if kind == "syncq" {
 				rcap = 0
 			}
@@ -1511,7 +1661,7 @@ func main() {
 	flush()
 	w.Close()
 
-	pw := tr.Create(*pout)
+	pw := create(*pout)
 	if *pplans != "" {
 		files, _ := filepath.Glob(filepath.Join(*pplans, "*.ndjson"))
 		sort.Strings(files)
@@ -1524,7 +1674,7 @@ func main() {
 		}
 	}
 	for i := 0; i < *nprand; i++ {
-		runPri(pw, "rand", []int{1, 2, 3, 4, 8}[rng.Intn(5)], randPri(rng, 15+rng.Intn(25)))
+		runPri(pw, "rand", []int{1, 2, 3, 4, 8, 0, -1, math.MaxInt}[rng.Intn(8)], randPri(rng, 15+rng.Intn(25)))
 	}
 	for i := 0; i < *nprace; i++ {
 		rcap := 1 + rng.Intn(3)
@@ -1532,8 +1682,8 @@ func main() {
 	}
 	pw.Close()
 
-	sw := tr.Create(*sout)
-	psw := tr.Create(*psout)
+	sw := create(*sout)
+	psw := create(*psout)
 	for i := 0; i < *nstress; i++ {
 		for _, kind := range kinds {
 			rcap := []int{0, 0, 2, 5}[rng.Intn(4)]
